@@ -133,6 +133,12 @@ def run(rep):
                 n2 += 1
                 rep.finding_or_violation('C18:twin:%s' % c['type'], '%s: valid word %s serialises differently with xsd_check=False' % (c['type'], c['word']),
                                          {'type': c['type'], 'word': c['word'], 'checked': o['checked'][:300], 'unchecked': o['unchecked'][:300]})
+            if 'unchecked_shortcut' in o and o['unchecked_shortcut'] != o['checked']:
+                n2 += 1
+                rep.finding_or_violation('C18:twin-shortcut:%s' % c['type'], '%s: valid word %s supplied through the xml_* shortcut to an unchecked element gives %s' % (
+                    c['type'], c['word'], o['unchecked_shortcut'][:120]), {'type': c['type'], 'word': c['word'], 'checked': o['checked'][:300], 'unchecked_shortcut': o['unchecked_shortcut'][:300]})
+            if any(x != 'None' for x in o.get('absent_reads', [])):
+                rep.violation('%s (unchecked): reading an absent possible child through the shortcut gives %s' % (c['type'], o['absent_reads']), {'type': c['type'], 'word': c['word'], 'reads': o['absent_reads']})
         # (3) gating
         exp = m.raw(['gate ' + ' '.join(tree_tokens(t)) for t in trees])
         n3 = 0
